@@ -460,6 +460,10 @@ def main(argv):
     kani_results = []
     kani_all = P.get('kani', [])
     kani_jobs = [h for h in kani_all if tier == 'thorough' or h.get('tier', 'quick') == 'quick']
+    if os.environ.get('VERIF_NO_KANI'):
+        # regression workers on a scratch worktree (tools/seedrun_par.py): the Kani crates include /repo's files by absolute path, so they are
+        # only meaningful for /repo itself; patches that touch a file a harness reads are routed to the worker that runs on /repo
+        kani_jobs = []
     with cf.ThreadPoolExecutor(max_workers=8) as ex:
         futs = [ex.submit(run_unit, u, tier, seed) for u in P['units']]
         kfuts = [ex.submit(kanirun.run_harness, h, True) for h in kani_jobs]
